@@ -1,0 +1,15 @@
+/*
+ * SPDX-FileCopyrightText: © 2017-2025 Istari Digital, Inc.
+ * SPDX-License-Identifier: Apache-2.0
+ */
+
+package simd
+
+// Search finds the first idx for which xs[idx] >= k in xs.
+func Search(xs []uint64, k uint64) int16 {
+	// The assembly reads four keys at a time and would look past the end of the slice otherwise.
+	if len(xs) < 8 || (len(xs)%8 != 0) {
+		return Naive(xs, k)
+	}
+	return search(xs, k)
+}
